@@ -429,7 +429,44 @@ func C12(c *Ctx) {
 		Entrypoints: true,
 	}
 	c.ModelCheck(cfg)
+	// Memoize(true): the message must be the same as without it, or differ exactly as known finding
+	// F23 says (the observation then equals the memo model variant)
+	c.runKnownF23()
+	mcfg := *cfg
+	mcfg.NGrammars = c.N(50, 600)
+	mcfg.FlagSets = [][]string{{}, {"-optimize-basic-latin"}}
+	mcfg.OptSets = []OptSet{{Name: "memoize", Memo: true}}
+	c.ModelCheck(&mcfg)
 	c.lrPass(12, c.N(40, 400), CmpNoMatch|CmpOK, []OptSet{{Name: "default"}}, false, cfg.NonTrivial)
+}
+
+// runKnownF23 executes the fixed witness of known finding F23.
+func (c *Ctx) runKnownF23() {
+	found := false
+	for _, id := range c.KnownIDs() {
+		if id == "F23-memo-expected-set" {
+			found = true
+		}
+	}
+	if !found {
+		return
+	}
+	g := &gast.Grammar{Rules: []*gast.Rule{
+		{Name: "S", Expr: gast.C(gast.S(gast.NotE(gast.Ref("B")), gast.L("z")), gast.Ref("B"))},
+		{Name: "B", Expr: gast.C(gast.L("b"), gast.L("c"))},
+	}}
+	g.Finalize()
+	bt := c.BuildUnits([]*gast.Grammar{g}, [][]string{{}}, false, nil)
+	defer bt.Close()
+	if !bt.Units[0].OK {
+		c.Broken("F23 witness does not build: " + bt.Units[0].Fail)
+		return
+	}
+	r := bt.Run([]*mon.Case{{ID: "f23", Pkg: bt.Units[0].Pkg, Input: []byte("d"), Memo: true}}, runOptsDefault)["f23"]
+	m := ref.Run(g, []byte("d"), ref.Opts{})
+	fails := r == nil || len(r.Errs) != 1 || len(r.Errs[0].Expected) != len(m.Expected)
+	c.MarkKnownStillFails("F23-memo-expected-set", fails)
+	c.Eval(1)
 }
 
 func c12Strata() []*gast.Grammar {
@@ -442,8 +479,12 @@ func c12Strata() []*gast.Grammar {
 	}
 	wide := mk(r("S", gast.C(gast.S(gast.Ref("E"), gast.L(";")), gast.S(gast.Ref("E"), gast.L(".")), gast.S(gast.Ref("E"), gast.L("!")), gast.S(gast.Ref("E"), gast.Cl(gast.Chars(",#"))))),
 		r("E", gast.S(gast.Ref("T"), gast.Star(gast.S(gast.C(ops...), gast.Ref("T"))))), r("T", gast.C(gast.Plus(gast.Cl(gast.Chars("01"))), gast.S(gast.L("("), gast.Ref("E"), gast.L(")")))))
+	digit := func() *gast.Expr { return gast.Cl(&gast.ClassSpec{Ranges: [][2]rune{{'0', '9'}}}) }
 	return []*gast.Grammar{
 		wide,
+		// the same terminal text inside a negative predicate and outside it, tried at the same offset
+		mk(r("S", gast.S(gast.NotE(digit()), gast.Plus(gast.Ref("IdChar")), gast.NotE(gast.Dot()))), r("IdChar", gast.C(gast.Cl(&gast.ClassSpec{Ranges: [][2]rune{{'a', 'z'}}}), digit(), gast.L("_")))),
+		mk(r("S", gast.S(gast.NotE(gast.S(gast.L("if"), gast.NotE(gast.Cl(gast.Chars("ab"))))), gast.C(gast.L("if"), gast.Plus(gast.Cl(gast.Chars("ab")))), gast.L(";")))),
 		mk(r("S", gast.S(gast.Star(gast.C(gast.L("ab"), gast.S(gast.L("a"), gast.NotE(gast.L("b"))))), gast.NotE(gast.Dot())))),
 		mk(r("S", gast.S(gast.L("a"), gast.NotE(gast.NotE(gast.Cl(gast.Chars("xy")))), gast.AndE(gast.NotE(gast.L("xz"))), gast.Dot(), gast.NotE(gast.Dot())))),
 		mk(r("S", gast.S(gast.Opt(gast.L("\n")), gast.C(gast.L("a"), gast.Li("B"), gast.Cl(&gast.ClassSpec{Chars: []rune("a"), Inverted: true})), gast.L("c")))),
